@@ -140,12 +140,46 @@ Example C04_topk_example :
   topk_step Z Z.ltb (fun _ => false) 0 [0; 1; 0; 1] 2 [(0, 5%Z); (1, 9%Z)] = [].
 Proof. repeat split; vm_compute; reflexivity. Qed.
 
+(* topk / bottomk as a function of the step's samples: when no two samples of a group have the
+   same value, the samples the heaps keep are exactly those with fewer than k strictly better
+   samples in their group, whatever the order of arrival (TopkTree.v); with ties the choice among
+   equal values is the heap's, and C04_topk_group bounds it. In operator trees (Trees.JTopk,
+   C01_join_trees) the kept samples equal the reference's selection at every step. *)
+From Coq Require Import Lia.
+From Verif Require TopkTree Trees TreeOps.
+Theorem C04_topk_is_rank_selection : forall (bottom : bool) (inputs : list nat) k ngroups (vec : list (nat * Z)),
+  let lt := if bottom then (fun a b => Z.ltb b a) else Z.ltb in
+  (1 <= k)%nat -> NoDup (map fst vec) ->
+  (forall e, In e vec -> (TopkTree.group_of Z inputs e < ngroups)%nat) ->
+  (forall g, NoDup (map snd (filter (TopkTree.in_group Z inputs g) vec))) ->
+  Permutation.Permutation (topk_step Z lt (TopkTree.nonan Z) k inputs ngroups vec)
+                          (filter (TopkTree.step_keep Z lt inputs k vec) vec).
+Proof.
+  intros bottom inputs k ngroups vec lt.
+  exact (TopkTree.topk_step_rank Z (Trees.ltk bottom) (Trees.ltk_irrefl bottom) (Trees.ltk_trans bottom) (Trees.ltk_total bottom)
+           Z.eq_dec inputs k ngroups vec).
+Qed.
+Print Assumptions C04_topk_is_rank_selection.
+
+(* non-vacuity: bottomk by (b) (1, foo) over two steps, and the reference's selection at the first *)
+Example C04_topk_tree_example :
+  let foo := Trees.JLeaf [[(0, 10); (1, 20); (2, 31)]; [(0, 10); (1, 21); (2, 31)]; [(0, 10); (1, 22); (2, 32)]]%N
+                         [[mkS 940 (Some 2); mkS 1040 (Some 9)]; [mkS 950 (Some 5)]; [mkS 1000 (Some 1)]]%Z 0%Z None in
+  let t := Trees.JTopk true 1 false [2%N] foo in
+  Trees.jok t /\
+  Trees.jrun (Compose.mkCfg 2 10 300%Z) (mkW 1000 1050 50)%Z t = inl [(1000, [(0%nat, 2); (2%nat, 1)]); (1050, [(1%nat, 5); (2%nat, 1)])]%Z /\
+  Trees.jref 300%Z t 1000%Z = Some [([(0, 10); (1, 20); (2, 31)]%N, 2%Z); ([(0, 10); (1, 22); (2, 32)]%N, 1%Z)].
+Proof.
+  cbv zeta. split; [|split; vm_compute; reflexivity].
+  unfold Trees.jok. simpl. repeat split; auto. repeat constructor; simpl; lia.
+Qed.
+
 (* Aggregations inside operator trees (Trees.JAgg, any accumulator that takes its first value
    through [init] and the others through [add]; sum, max, min, group are instances: TreeOps.zagg_laws):
    the group's value does not depend on the order in which its members arrive; the end-to-end
    statement - groups, labels and values of every aggregation node of a tree over sharded,
    batched selectors equal the reference's at every step - is C01_join_trees. *)
-From Verif Require Trees TreeOps.
+
 Theorem C04_group_value_order_free : forall (init : Z -> Z) (add : Z -> Z -> Z),
   (forall a b, add (init a) b = add (init b) a) -> (forall x a b, add (add x a) b = add (add x b) a) ->
   forall l l', Permutation.Permutation l l' -> Trees.agg_fold init add l = Trees.agg_fold init add l'.
